@@ -39,6 +39,7 @@ fn main() {
         "purity" => purity::run(rest),
         "ord-cases" => ord::cases(rest),
         "ord-props" => ord::props(rest),
+        "ord-mc" => ord::mc(rest),
         "sk-props" => sk::props(rest),
         "sk-mc" => sk::mc(rest),
         "pmh-props" => pmh::props(rest),
